@@ -38,6 +38,10 @@ type c07Input struct {
 	Origin string `json:"origin"`          // seed file or generator
 	Op     string `json:"op"`              // mutation operator(s)
 	WdMs   int    `json:"wd_ms,omitempty"` // per-input watchdog override (deep nesting takes long to compile)
+	Opt    int    `json:"opt"`             // interpreter configuration of this input: optimizer level 0..3,
+	Reg    bool   `json:"reg"`             // registers,
+	CF     bool   `json:"cf"`              // constant folding
+	cfgSet bool
 	src    string
 	base   bool // unmutated corpus file
 }
@@ -46,12 +50,15 @@ type c07Case struct {
 	Mode   string `json:"mode"`
 	Origin string `json:"origin,omitempty"`
 	Op     string `json:"op,omitempty"`
+	Opt    int    `json:"opt"`
+	Reg    bool   `json:"reg"`
+	CF     bool   `json:"cf"`
 	SrcB64 string `json:"src_b64"`
 	Src    string `json:"src_preview,omitempty"`
 }
 
 func caseOf(in *c07Input) c07Case {
-	return c07Case{Mode: in.Mode, Origin: in.Origin, Op: in.Op, SrcB64: base64.StdEncoding.EncodeToString([]byte(in.src)), Src: vh.Trunc(strings.ToValidUTF8(in.src, "�"), 600)}
+	return c07Case{Mode: in.Mode, Origin: in.Origin, Op: in.Op, Opt: in.Opt, Reg: in.Reg, CF: in.CF, SrcB64: base64.StdEncoding.EncodeToString([]byte(in.src)), Src: vh.Trunc(strings.ToValidUTF8(in.src, "�"), 600)}
 }
 
 // ---------------------------------------------------------------- child
@@ -118,6 +125,8 @@ func TestC07Worker(t *testing.T) {
 		}
 
 		fmt.Fprintf(prog, "B %d %s\n", i, in.Name)
+
+		curOpt, curReg, curCF = in.Opt, in.Reg, in.CF
 
 		done := make(chan outcome, 1)
 
@@ -332,8 +341,10 @@ func (g *generator) next() *c07Input {
 		x = 330 + x%70
 	case "conc":
 		x = 400 + x%20
+	case "const":
+		x = 420 + x%60
 	case "mutation":
-		x = 420 + x%580
+		x = 480 + x%520
 	}
 
 	switch {
@@ -417,6 +428,13 @@ func (g *generator) next() *c07Input {
 		}
 
 		return in
+	}
+
+	if x < 480 {
+		src, kind := constRandom(rng)
+		o := 1 + rng.Intn(3)
+
+		return &c07Input{Origin: "generated:const", Op: kind, src: src, Mode: []string{"run", "run", "run", "fragment"}[rng.Intn(4)], Opt: o, Reg: o == 3 || rng.Intn(2) == 0, CF: o == 3 || rng.Intn(4) > 0, cfgSet: true}
 	}
 
 	pool := g.seeds
@@ -520,6 +538,10 @@ func (br *batchRunner) runBatch(dir string, inputs []*c07Input) []c07Result {
 
 	idx := make([]c07Input, len(inputs))
 	for i, in := range inputs {
+		if !in.cfgSet { // rotate the interpreter configuration across inputs: 4 optimizer levels x registers x constant folding
+			in.Opt, in.Reg, in.CF, in.cfgSet = i%4, (i/4)%2 == 1, (i/8)%2 == 1, true
+		}
+
 		idx[i] = *in
 		if err := os.WriteFile(filepath.Join(dir, in.Name+".in"), []byte(in.src), 0o644); err != nil {
 			t.Fatal(err)
@@ -717,10 +739,10 @@ func cliRun(ego, dir string, in *c07Input, idx int) (string, string) {
 		cmd = exec.CommandContext(ctx, ego, "test", "--sandbox=true", file)
 		how = "ego test --sandbox=true <file>"
 	case "run":
-		cmd = exec.CommandContext(ctx, ego, "run", "--sandbox=true", file)
+		cmd = exec.CommandContext(ctx, ego, "run", "--sandbox=true", "--optimize", strconv.Itoa(in.Opt), file)
 		how = "ego run --sandbox=true <file>"
 	default: // fragment / server / console: the REPL path, source piped on stdin
-		cmd = exec.CommandContext(ctx, ego, "run", "--sandbox=true")
+		cmd = exec.CommandContext(ctx, ego, "run", "--sandbox=true", "--optimize", strconv.Itoa(in.Opt))
 		cmd.Stdin = strings.NewReader(in.src)
 		how = "ego run --sandbox=true < file"
 	}
@@ -777,7 +799,7 @@ var c07Probes = []struct{ key, mode, src string }{
 func TestC07(t *testing.T) {
 	r := vh.New("C07", "crash")
 	r.Rule = "inputs = token-level mutations (13 operators, 1-6 per input) of every .ego file under tests/, lib/packages, lib/services, examples and of programs from the shared generator verifh/gen (a quarter of the mutants), plus raw random bytes / ASCII / punctuation / token soup, " +
-		"plus 35 deep-nesting shapes, plus generated ill-typed statements (130 statement templates x 150 operand atoms: types, packages, functions, nil, collections where values are expected), composite literals of the wrong shape for declared struct/array/map types (120 directed + random), 40 concurrency crash shapes with real goroutines (close under a parked sender, double close, send after close, negative WaitGroup, foreign Unlock, panicking goroutines, @wait on blocked goroutines); each is run in one of 5 modes (run, fragment=piped stdin, test, server=admin.RunCodeHandler editor, console). " +
+		"plus 35 deep-nesting shapes, plus generated ill-typed statements (130 statement templates x 150 operand atoms: types, packages, functions, nil, collections where values are expected), composite literals of the wrong shape for declared struct/array/map types (120 directed + random), 40 concurrency crash shapes with real goroutines (close under a parked sender, double close, send after close, negative WaitGroup, foreign Unlock, panicking goroutines, @wait on blocked goroutines); constant expressions aimed at the compile-time folder (every operator x zero/extreme constants of every numeric kind, division/modulo/shift by zero-valued typed consts, overflowing products, string*int; directed at 5 optimizer configurations + random); each is run in one of 5 modes (run, fragment=piped stdin, test, server=admin.RunCodeHandler editor, console) and the interpreter configuration rotates across inputs (optimizer level 0..3 x registers x constant folding). " +
 		"distinct = distinct (mode, bytes); non-trivial = not byte-identical to an unmutated corpus file and non-empty."
 	r.Assume("the harness child (egorun / TestAction mirror / direct RunCodeHandler call) reaches the same compiler and VM code as the ego binary; every violation witness is re-run through the real binary and the result recorded")
 	r.Assume("a watchdog timeout (input still running after the per-input real-time limit) is not a verdict")
@@ -831,12 +853,15 @@ func TestC07(t *testing.T) {
 				r.Eval(id, !in.base && len(in.src) > 0)
 				r.Count("outcome."+res.class, 1)
 				r.Count("mode."+in.Mode, 1)
+				r.Count(fmt.Sprintf("config.o%d.reg=%t.cf=%t", in.Opt, in.Reg, in.CF), 1)
 
 				switch {
 				case strings.HasPrefix(in.Origin, "generated:gen"):
 					r.Count("seed.verifh-gen", 1)
 				case strings.HasPrefix(in.Origin, "generated:illtyped"):
 					r.Count("seed.illtyped", 1)
+				case strings.HasPrefix(in.Origin, "generated:const"):
+					r.Count("seed.const", 1)
 				case strings.HasPrefix(in.Origin, "generated:shape"):
 					r.Count("seed.shape", 1)
 				case strings.HasPrefix(in.Origin, "generated:conc"):
@@ -853,6 +878,8 @@ func TestC07(t *testing.T) {
 
 				if strings.HasPrefix(in.Op, "illtyped:") {
 					r.Count("op.illtyped", 1)
+				} else if strings.HasPrefix(in.Op, "const:") {
+					r.Count("op.const", 1)
 				} else if strings.HasPrefix(in.Op, "shape:") || strings.HasPrefix(in.Op, "conc:") {
 					r.Count("op."+in.Op, 1)
 				} else {
@@ -926,7 +953,7 @@ func TestC07(t *testing.T) {
 		}
 
 		src, _ := base64.StdEncoding.DecodeString(rc.SrcB64)
-		in := &c07Input{Name: "replay-0", Mode: rc.Mode, Origin: rc.Origin, Op: rc.Op, src: string(src)}
+		in := &c07Input{Name: "replay-0", Mode: rc.Mode, Origin: rc.Origin, Op: rc.Op, src: string(src), Opt: rc.Opt, Reg: rc.Reg, CF: rc.CF, cfgSet: true}
 		dir := filepath.Join(root, "replay")
 		record(dir, br.runBatch(dir, []*c07Input{in}))
 		r.Distinct = 2
@@ -994,6 +1021,23 @@ func TestC07(t *testing.T) {
 			}
 		}
 
+		// directed constant expressions for the compile-time folder, at explicit optimizer configurations
+		nConst := 0
+
+		for i, cc := range constDirected() {
+			cfgs := [][3]int{constConfigs[i%len(constConfigs)]}
+			if (strings.Contains(cc.desc, ":/:") || strings.Contains(cc.desc, ":%:")) && i%2 == 0 || strings.HasPrefix(cc.desc, "const:expr:") {
+				cfgs = constConfigs[:4] // division and modulo shapes: the four optimizing configurations
+			}
+
+			for j, cf := range cfgs {
+				ins = append(ins, &c07Input{Name: fmt.Sprintf("const-%04d-%d", i, j), Mode: "run", Origin: "generated:const", Op: cc.desc, src: cc.src, Opt: cf[0], Reg: cf[1] == 1, CF: cf[2] == 1, cfgSet: true})
+				nConst++
+			}
+		}
+
+		r.Count("const.directed_runs", int64(nConst))
+
 		for i, p := range c07Probes {
 			ins = append(ins, &c07Input{Name: fmt.Sprintf("probe-%02d", i), Mode: p.mode, Origin: "probe:" + p.key, Op: "probe", src: p.src})
 			r.Probe(p.key)
@@ -1058,7 +1102,7 @@ func TestC07(t *testing.T) {
 	r.Count("baseline.corpus_ok", baseOK)
 
 	// ---- main stream
-	remaining := total - int(r.Evaluations)
+	remaining := total - (int(r.Evaluations) - int(r.Counters["const.directed_runs"]))
 	if remaining < 0 {
 		remaining = 0
 	}
